@@ -161,6 +161,17 @@ def _drive_ipm(args):
             q = r.randrange(len(x))
             x[q] = r.choice((0x2d, 0x20, 0xff, 0x00, 0x60, 0x40, r.randrange(256)))
         out.append(_ipm_trace(tid, bytes(x), enc, blocked, bc, wd, tid % 6 == 0))
+        if tid % 4 == 1:
+            # free text with characters that mean something to string formatting (%, braces) behind a sub-element whose
+            # length is damaged: the walk then takes such text for a tag
+            m = {'MTI': '1240', 'DE3': '123456', 'PDS0023': 'ABC', 'PDS0052': '100% CREDIT {0} %(x)s %d 50%', 'PDS0148': '{}%s%%'}
+            rec = isoc.iso8583.dumps(dict(m), encoding=enc)
+            q = rec.find('0023003'.encode(enc))
+            for newlen in ('013', '007', '011', '017', '02%', '0{}'):
+                y = rec[:q + 4] + newlen.encode(enc) + rec[q + 7:]
+                _, data = drv.vbs_write_events([y], blocked)
+                out.append(_ipm_trace(tid * 100 + len(out) % 100 + 10 ** 6, data, enc, blocked, bc, wd, newlen in ('013', '02%'),
+                                      'first PDS length := %r in front of text with %% and braces' % newlen))
     return out
 
 
